@@ -39,18 +39,47 @@ def _strip_output_types(graph) -> None:
         o.ClearField("type")
 
 
-def build_exposed(args: dict, exposed: list):
-    """ModelProto computing every Var in `exposed` as output o<i>, built by spox itself; the declared
-    output types are then removed so the runtime reports what it actually computes."""
-    from spox._graph import results
+FALLBACK: list = []  # reasons why the internal exposure path was not usable (reported once per run)
 
-    outs = {f"o{i}": v for i, v in enumerate(exposed)}
+
+def make_args(decl: dict) -> dict:
+    """Model inputs through the public API: name -> Var of the given spox Type."""
+    from spox import argument
+
     with warnings.catch_warnings():
         warnings.simplefilter("ignore")
-        g = results(**outs).with_arguments(*args.values())
-        m = g.to_onnx_model(concrete=False)
+        return {name: argument(t) for name, t in decl.items()}
+
+
+def build_exposed(args: dict, exposed: list):
+    """(ModelProto, indices kept): a model computing the Vars in `exposed` as outputs o<i>, built by
+    spox itself; the declared output types are then removed so the runtime reports what it actually
+    computes. Preferred path: the same calls `spox.build` makes, but with `concrete=False` so that
+    rank-unknown Vars can be outputs too. If those internals are not there any more, fall back to
+    the public `spox.build` and expose only the Vars it accepts."""
+    import spox
+
+    outs = {f"o{i}": v for i, v in enumerate(exposed)}
+    kept = list(range(len(exposed)))
+    with warnings.catch_warnings():
+        warnings.simplefilter("ignore")
+        m = None
+        if not FALLBACK:
+            try:
+                from spox._graph import results
+                from spox._public import _temporary_renames
+
+                with _temporary_renames(**args):
+                    g = results(**outs).with_arguments(*args.values())
+                    m = g.to_onnx_model(concrete=False, check_model=0)  # the checker refuses rank-unknown outputs
+            except (ImportError, AttributeError, TypeError, NameError) as e:
+                FALLBACK.append(f"{type(e).__name__}: {str(e)[:200]}")
+                m = None
+        if m is None:
+            kept = [i for i, v in enumerate(exposed) if getattr(v.type, "shape", None) is not None]
+            m = spox.build(dict(args), {f"o{i}": exposed[i] for i in kept})
     _strip_output_types(m.graph)
-    return m
+    return m, kept
 
 
 def feeds_for(args: dict, rng: random.Random, sizes, max_inst: int) -> list[dict]:
@@ -97,119 +126,220 @@ def feeds_for(args: dict, rng: random.Random, sizes, max_inst: int) -> list[dict
 
 
 # ----------------------------------------------------------------------------- judging
-def _attr(node, name):
-    a = getattr(node.attrs, name, None)
-    return None if a is None else a.value
+# Everything below looks only at the built ModelProto, the runtime values and `Var.type`.
+_ML = "ai.onnx.ml"
 
 
-def classify(var, kind: str, val: dict) -> str:
-    node = var._op
-    opname = node.op_type.identifier
-    out = var._which_output or "?"
-    ty = L.ty_to_json(var.type)
+def _free_names(graph) -> set:
+    """Value names a (sub)graph reads from enclosing scopes."""
+    import onnx
+
+    defined = {i.name for i in graph.input} | {t.name for t in graph.initializer}
+    used: set = set()
+    for n in graph.node:
+        used.update(x for x in n.input if x)
+        for a in n.attribute:
+            if a.type == onnx.AttributeProto.GRAPH:
+                used |= _free_names(a.g)
+            elif a.type == onnx.AttributeProto.GRAPHS:
+                for g in a.graphs:
+                    used |= _free_names(g)
+        defined.update(n.output)
+    return used - defined
+
+
+class ProtoView:
+    def __init__(self, m):
+        import onnx
+
+        self.m = m
+        self.prod: dict = {}
+        self.alias: dict = {}
+        for n in m.graph.node:
+            for o in n.output:
+                self.prod[o] = n
+        outs = {o.name for o in m.graph.output}
+        for n in m.graph.node:
+            if n.op_type == "Identity" and n.domain == "" and len(n.output) == 1 and n.output[0] in outs:
+                self.alias[n.output[0]] = n.input[0]
+        self._deps: dict = {}
+        self._onnx = onnx
+
+    def real(self, out_name: str) -> str:
+        return self.alias.get(out_name, out_name)
+
+    def deps(self, node) -> set:
+        key = id(node)
+        if key not in self._deps:
+            d = {x for x in node.input if x}
+            for a in node.attribute:
+                if a.type == self._onnx.AttributeProto.GRAPH:
+                    d |= _free_names(a.g)
+                elif a.type == self._onnx.AttributeProto.GRAPHS:
+                    for g in a.graphs:
+                        d |= _free_names(g)
+            self._deps[key] = d
+        return self._deps[key]
+
+    def depends_on(self, name: str, bad: set) -> bool:
+        """Is the value `name` computed (transitively, through node inputs and through what subgraph
+        bodies capture) from one of the values in `bad`?"""
+        node = self.prod.get(name)
+        if node is None:
+            return False
+        seen, stack = set(), list(self.deps(node))
+        while stack:
+            x = stack.pop()
+            if x in seen:
+                continue
+            seen.add(x)
+            if x in bad and x != name:
+                return True
+            n = self.prod.get(x)
+            if n is not None:
+                stack.extend(self.deps(n))
+        return False
+
+
+def _type_proto_json(tp) -> Optional[dict]:
+    import onnx
+
+    if not tp.HasField("tensor_type"):
+        return None
+    e = L.elem_name(onnx.helper.tensor_dtype_to_np_dtype(tp.tensor_type.elem_type))
+    if not tp.tensor_type.HasField("shape"):
+        return {"e": e, "s": None}
+    dims = []
+    for d in tp.tensor_type.shape.dim:
+        if d.HasField("dim_value"):
+            dims.append(d.dim_value)
+        elif d.HasField("dim_param") and d.dim_param:
+            dims.append(d.dim_param)
+        else:
+            dims.append(None)
+    return {"e": e, "s": dims}
+
+
+def classify(view: ProtoView, name: str, kind: str, val: dict, ty: dict, rt_by_name: dict) -> tuple[str, str]:
+    """(key, operator description) for a root failure at value `name`."""
+    import onnx
+
+    node = view.prod.get(name)
+    if node is None:
+        return f"?:?:{kind}:unexplained", "?"
+    opname = node.op_type if node.domain in ("", _ML, "ai.onnx") else "Function"
+    idx = list(node.output).index(name)
+    out = str(idx)
     cause = "unexplained"
     try:
+        attrs = {a.name: onnx.helper.get_attribute_value(a) for a in node.attribute}
+        try:
+            sch = onnx.defs.get_schema(node.op_type, domain=node.domain)
+            out = sch.outputs[min(idx, len(sch.outputs) - 1)].name
+        except Exception:  # noqa: BLE001
+            pass
         if opname == "LinearRegressor" and kind == "dim1":
-            if val["s"][1] == _attr(node, "targets") and ty["s"][1] != _attr(node, "targets"):
+            t = attrs.get("targets", 1)
+            if val["s"][1] == t and ty["s"][1] != t:
                 cause = "targets"
-        elif opname == "TreeEnsembleClassifier" and out == "Z" and kind == "dim1":
-            labels = _attr(node, "classlabels_strings") or _attr(node, "classlabels_int64s") or ()
-            ids = _attr(node, "class_ids") or ()
+        elif opname == "TreeEnsembleClassifier" and idx == 1 and kind == "dim1":
+            labels = attrs.get("classlabels_strings") or attrs.get("classlabels_int64s") or ()
+            ids = attrs.get("class_ids") or ()
             if ty["s"][1] == len(ids) and val["s"][1] == len(labels):
                 cause = "class_ids-vs-n_classes"
         elif opname == "Normalizer" and kind == "dtype":
-            xin = node.inputs.X.type
-            if val["e"] == "f32" and xin is not None and L.elem_name(xin.dtype) != "f32" and ty["e"] == L.elem_name(xin.dtype):
+            if val["e"] == "f32" and ty["e"] in ("f64", "i64", "i32"):  # the input's element type was reported
                 cause = "output-is-float"
         elif opname == "Loop":
-            body = node.attrs.body.value
-            n = len(body.requested_arguments) - 2
-            outs = list(node.outputs.get_vars())
-            idx = outs.index(out) if out in outs else -1
+            n = len(node.input) - 2
             if 0 <= idx < n:
-                res = list(body.requested_results.values())[1 + idx]
                 out = "carried"
-                if res.type == var.type:
+                if _type_proto_json(attrs["body"].output[1 + idx].type) == ty:
                     cause = "body-result-type"
             else:
                 out = "scan"
     except Exception:  # noqa: BLE001
         pass
-    return f"{opname}:{out}:{kind}:{cause}"
+    return f"{opname}:{out}:{kind}:{cause}", f"{opname} output {out}"
 
 
-def _depends_on_bad(v, status: dict) -> bool:
-    """Does `v` (transitively, through node inputs and through the results of subgraph bodies, which
-    may capture outer values) depend on an observed Var that does not conform?"""
-    seen = set()
-    stack = [v]
-    first = True
-    while stack:
-        u = stack.pop()
-        if id(u) in seen:
-            continue
-        seen.add(id(u))
-        if not first and status.get(id(u)):
-            return True
-        first = False
-        node = u._op
-        stack.extend(node.inputs.get_vars().values())
-        try:
-            for g in node.subgraphs:
-                stack.extend(g.requested_results.values())
-        except Exception:  # noqa: BLE001
-            pass
-    return False
-
-
-def judge(exposed: list, vals: list[dict], feed_desc) -> tuple[list[dict], int]:
-    """Compare observed values with the reported types; returns (root failures, #vars compared)."""
-    status = {}
-    for v, val in zip(exposed, vals):
-        status[id(v)] = L.conforms(val, L.ty_to_json(v.type))
+def judge(view: ProtoView, exposed: list, kept: list, vals: list[dict], feed: dict) -> tuple[list[dict], int]:
+    """Compare observed values with the reported types; returns (root failures, #vars compared).
+    `vals[j]` is the runtime value of `exposed[kept[j]]` = model output `o<kept[j]>`."""
+    feed_desc = {k: list(a.shape) for k, a in feed.items()}
+    rt_by_name = {k: L.val_of(a) for k, a in feed.items()}
+    kinds = {}
+    for i, val in zip(kept, vals):
+        name = view.real(f"o{i}")
+        rt_by_name[name] = val
+        kinds[i] = L.conforms(val, L.ty_to_json(exposed[i].type))
+    bad = {view.real(f"o{i}") for i, k in kinds.items() if k}
     fails = []
-    for v, val in zip(exposed, vals):
-        kind = status[id(v)]
+    for i, val in zip(kept, vals):
+        kind = kinds[i]
         if kind is None:
             continue
-        if _depends_on_bad(v, status):
+        name = view.real(f"o{i}")
+        if view.depends_on(name, bad):
             continue  # something it is computed from is already non-conforming: not the root
-        key = classify(v, kind, val)
+        ty = L.ty_to_json(exposed[i].type)
+        key, desc = classify(view, name, kind, val, ty, rt_by_name)
         fails.append(
             {
-                "idx": exposed.index(v),
+                "idx": i,
+                "pos": kept.index(i),
                 "key": key,
-                "what": f"{v._op.op_type.identifier} output {v._which_output}: reported {v.type}, onnxruntime produced "
-                f"{val['e']}{val['s']} ({kind}) on inputs {feed_desc}",
-                "reported": L.ty_to_json(v.type),
+                "what": f"{desc}: reported {exposed[i].type}, onnxruntime produced {val['e']}{val['s']} ({kind}) "
+                f"on inputs {feed_desc}",
+                "reported": ty,
                 "runtime": val,
             }
         )
-    return fails, len(exposed)
+    return fails, len(kept)
 
 
-def adjudicate(model, feed: dict, exposed: list, fails: list[dict], st: dict) -> list[dict]:
-    """A value onnxruntime produced does not conform. Before calling it a failure of the property,
-    ask the ONNX reference evaluator for the same output: if *its* value conforms to the reported
-    type, the two runtimes disagree (e.g. onnxruntime returns its input unchanged for ReduceSum with a
-    negative axis over an empty tensor) and the reported type is right by the ONNX semantics — recorded
-    as a runtime disagreement, not as a failure. If the evaluator cannot run the model the failure stands."""
-    if not fails:
+_PLAIN_CACHE: dict = {}
+
+
+def _plain_standard_op(view: ProtoView, name: str) -> bool:
+    """Is the value produced by a standard operator typed by ONNX itself (no subgraph, not one of the
+    operators whose inference spox writes by hand)?"""
+    node = view.prod.get(name)
+    if node is None or node.domain not in ("", "ai.onnx"):
+        return False
+    if any(a.HasField("g") or len(a.graphs) for a in node.attribute):
+        return False
+    return node.op_type not in ("Compress", "Loop", "If", "Scan")
+
+
+def adjudicate(view: ProtoView, feed: dict, exposed: list, fails: list[dict], st: dict) -> list[dict]:
+    """A value onnxruntime produced does not conform. If it comes from a plain standard operator typed
+    by ONNX itself, ask the ONNX reference evaluator for the same output before calling it a failure
+    of the property: if *its* value conforms to the reported type, the two runtimes disagree (e.g.
+    onnxruntime returns its input unchanged for ReduceSum with a negative axis over an empty tensor)
+    and the reported type is right by the ONNX semantics — recorded as a runtime disagreement. For the
+    hand-typed operators and for control flow onnxruntime's verdict stands (the reference
+    evaluator's Loop mis-evaluates bodies that return their own arguments)."""
+    cand = [f for f in fails if _plain_standard_op(view, view.real(f"o{f['idx']}"))]
+    if not cand:
         return fails
     try:
         from onnx.reference import ReferenceEvaluator
 
-        ref = ReferenceEvaluator(model).run(None, feed)
+        ref = ReferenceEvaluator(view.m).run(None, feed)
     except Exception:  # noqa: BLE001
         return fails
     kept = []
     for f in fails:
+        if f not in cand:
+            kept.append(f)
+            continue
         try:
-            val = L.val_of(ref[f["idx"]])
+            val = L.val_of(ref[f["pos"]])
         except Exception:  # noqa: BLE001
             kept.append(f)
             continue
-        if L.conforms(val, L.ty_to_json(exposed[f["idx"]].type)) is None:
+        if L.conforms(val, f["reported"]) is None:
             st["runtime_disagreements"] = st.get("runtime_disagreements", 0) + 1
             st.setdefault("disagreement_samples", []).append(f["what"] + f" -- onnx.reference produced {val['e']}{val['s']}")
         else:
@@ -233,18 +363,20 @@ def observe(args: dict, exposed: list, rng, sizes, max_inst, extra_feeds=(), fix
     """`extra_feeds`: feeds to run before the generated ones (a replay's recorded input);
     `fix_feed(feed)`: lets a caller overwrite inputs whose values must be meaningful."""
     st = {"rejected": False, "runs": 0, "refused": 0, "checked": 0, "fails": []}
-    exposed = [v for v in exposed if v.type is not None and "other" not in (L.ty_to_json(v.type) or {})]
-    # a Var may be exposed once
+    arg_ids = {id(v) for v in args.values()}
     seen, uniq = set(), []
-    for v in exposed:
-        if id(v) not in seen and not type(v._op).__name__ == "Argument":
-            seen.add(id(v))
-            uniq.append(v)
+    for v in exposed:  # typed tensors, each once, and not the model inputs themselves
+        tj = L.ty_to_json(v.type)
+        if tj is None or "other" in tj or id(v) in seen or id(v) in arg_ids:
+            continue
+        seen.add(id(v))
+        uniq.append(v)
     if not uniq:
         return st
     try:
-        m = build_exposed(args, uniq)
+        m, kept = build_exposed(args, uniq)
         sess = _session(m.SerializeToString())
+        view = ProtoView(m)
     except Exception as e:  # noqa: BLE001
         st["refused"] += 1
         st["load_error"] = f"{type(e).__name__}: {str(e)[:300]}"
@@ -260,9 +392,8 @@ def observe(args: dict, exposed: list, rng, sizes, max_inst, extra_feeds=(), fix
             st["refused"] += 1
             continue
         vals = [L.val_of(r) for r in res]
-        desc = {k: list(a.shape) for k, a in feed.items()}
-        fails, n = judge(uniq, vals, desc)
-        fails = adjudicate(m, feed, uniq, fails, st)
+        fails, n = judge(view, uniq, kept, vals, feed)
+        fails = adjudicate(view, feed, uniq, fails, st)
         st["checked"] += n
         for f in fails:
             if not any(g["key"] == f["key"] for g in st["fails"]):
@@ -277,7 +408,6 @@ def run_single(case: dict, rng, sizes, max_inst: int, extra_feeds=()) -> dict:
     input first goes through `Reshape(x, s)` with a runtime shape tensor `s` (fed with x's own shape),
     which makes its type rank-unknown without changing the value."""
     import spox.opset.ai.onnx.v17 as op17
-    from spox._graph import arguments_dict
 
     op = L.OPS[case["op"]]
     tys = case["in"]
@@ -285,7 +415,7 @@ def run_single(case: dict, rng, sizes, max_inst: int, extra_feeds=()) -> dict:
         decl = {n: L.ty_from_json(t) for n, t in zip(op.inputs, tys)}
         if case.get("erase"):
             decl["shape__"] = L.ty_from_json({"e": "i64", "s": ["K"]})
-        args = arguments_dict(**decl)
+        args = make_args(decl)
         ins = [args[n] for n in op.inputs]
         shapes = [t["s"] for t in tys]
         concrete = [[d if isinstance(d, int) else 2 for d in s] for s in shapes]
@@ -500,6 +630,8 @@ class Gen:
                     w, _ = self.unary(v, safe=True)
                     if rng.random() < 0.5:
                         w, _ = self.unary(w, safe=True)
+                    if self.e(w) != self.e(v):  # both branches must agree on the element type
+                        w = op.cast(w, to=L.ELEM[self.e(v)])
                     return [w]
                 finally:
                     rng.setstate(st)
@@ -525,26 +657,34 @@ class Gen:
         sd = rng.randrange(1 << 30)
         inner: list = []
 
-        def body(i, c, w):
+        feedback = rng.random() < 0.3  # a second carried value that returns the first one's *argument*
+        refine = (not changing) and rng.random() < 0.25 and self.e(v) == "f32" and self.rank(v) >= 1 \
+            and not isinstance(v.type.shape[-1], int)
+
+        def body(i, c, w, *more):
             st = rng.getstate()
             rng.seed(sd)
             try:
                 if changing and self.rank(w) >= 1:
                     nxt = op.concat([w, w], axis=0)
+                elif refine:  # broadcasting against a constant refines the unknown last dim to 3
+                    nxt = op.add(w, op.const(np.ones((3,), dtype=np.float32)))
                 else:
                     nxt = rng.choice([op.neg, op.identity, lambda t: op.add(t, t)])(w)
                 scans = [i, w]
                 u, _ = self.unary(w, safe=True)
                 scans.append(u)
                 inner.extend(scans)
-                return [c, nxt] + scans
+                return [c, nxt] + ([w] if more else []) + scans
             finally:
                 rng.setstate(st)
 
-        outs = op.loop(M, v_initial=[v], body=body)
-        self.body_exposed += len(outs) - 1
+        init = [v, v] if feedback else [v]
+        outs = op.loop(M, v_initial=init, body=body)
+        self.body_exposed += len(outs) - len(init)
         for j, o in enumerate(outs):
-            self.add(o, "loop" if j == 0 else "loop-scan", f"loop(M={m_src}, changing={changing}, {v.type})[{j}]")
+            self.add(o, "loop" if j < len(init) else "loop-scan",
+                     f"loop(M={m_src}, changing={changing}, feedback={feedback}, refine={refine}, {v.type})[{j}]")
         return outs[0]
 
     def do_inline(self):
@@ -569,11 +709,34 @@ class Gen:
         return None
 
     def do_function(self):
-        from spox._function import to_function
-
+        """Functions (`to_function`): their result types are what the body infers for the actual
+        argument types. Either a random body called once, or one polymorphic body called on two
+        values of different rank / element type."""
+        try:
+            from spox._function import to_function
+        except Exception:  # noqa: BLE001
+            return None
         rng, op = self.rng, self.op
         v = self.pick(lambda v: self.rank(v) is not None)
         if v is None:
+            return None
+        if rng.random() < 0.5:
+            bodies = {
+                "add": lambda p: [op.add(p, p)],
+                "neg_unsqueeze": lambda p: [op.unsqueeze(op.neg(p), op.const(np.array([0], dtype=np.int64)))],
+                "shape": lambda p: [op.shape(p), op.identity(p)],
+                "flatten_concat": lambda p: [op.concat([op.reshape(p, op.const(np.array([-1], dtype=np.int64)))] * 2, axis=0)],
+            }
+            name = rng.choice(sorted(bodies))
+            fun = to_function(f"poly_{name}_{self.seed}", "c06.fun")(bodies[name])
+            others = [w for w in self.pool if w.type is not None and self.rank(w) is not None
+                      and (self.rank(w) != self.rank(v) or self.e(w) != self.e(v))]
+            targets = [v] + ([rng.choice(others)] if others else [])
+            for t in targets:
+                for r in fun(t):
+                    self.add(r, "function", f"function[{name}]({t.type})")
+            if len(targets) > 1:
+                self.ops["function-two-types"] = self.ops.get("function-two-types", 0) + 1
             return None
         sd = rng.randrange(1 << 30)
 
@@ -591,15 +754,13 @@ class Gen:
         return self.add(r, "function", f"function({v.type})")
 
     def build(self):
-        from spox._graph import arguments_dict
-
         rng = self.rng
         n_args = rng.randrange(1, 4)
         tys = {}
         for i in range(n_args):
             e, s = rng.choice(ARG_TYPES)
             tys[f"x{i}"] = L.ty_from_json({"e": e, "s": s})
-        self.args = arguments_dict(**tys)
+        self.args = make_args(tys)
         self.pool = list(self.args.values())
         for name, v in self.args.items():
             self.text.append(f"{name}: {v.type}")
@@ -641,35 +802,27 @@ def run_program(case: dict, sizes, max_inst: int, extra_feeds=()) -> dict:
 # ----------------------------------------------------------------------------- hand-written witnesses
 def _w_linreg():
     import spox.opset.ai.onnx.ml.v3 as ml
-    from spox._graph import arguments_dict
-
-    args = arguments_dict(x=L.ty_from_json({"e": "f32", "s": [4, 3]}))
+    args = make_args(dict(x=L.ty_from_json({"e": "f32", "s": [4, 3]})))
     y = ml.linear_regressor(args["x"], coefficients=[1.0, 2.0, 3.0], intercepts=[0.0], targets=1)
     return args, [y]
 
 
 def _w_treecls():
     import spox.opset.ai.onnx.ml.v3 as ml
-    from spox._graph import arguments_dict
-
-    args = arguments_dict(x=L.ty_from_json({"e": "f32", "s": [4, 2]}))
+    args = make_args(dict(x=L.ty_from_json({"e": "f32", "s": [4, 2]})))
     y, z = ml.tree_ensemble_classifier(args["x"], **L.OPS["TreeEnsembleClassifier"].kwargs({"a": 3, "b": None, "c": 2}))
     return args, [y, z]
 
 
 def _w_normalizer():
     import spox.opset.ai.onnx.ml.v3 as ml
-    from spox._graph import arguments_dict
-
-    args = arguments_dict(x=L.ty_from_json({"e": "f64", "s": ["N", 5]}))
+    args = make_args(dict(x=L.ty_from_json({"e": "f64", "s": ["N", 5]})))
     return args, [ml.normalizer(args["x"])]
 
 
 def _w_loop_m0():
     import spox.opset.ai.onnx.v17 as op
-    from spox._graph import arguments_dict
-
-    args = arguments_dict(x=L.ty_from_json({"e": "f32", "s": [2]}))
+    args = make_args(dict(x=L.ty_from_json({"e": "f32", "s": [2]})))
     (v,) = op.loop(op.const(np.array(0, dtype=np.int64)), v_initial=[args["x"]],
                    body=lambda i, c, w: [c, op.concat([w, w], axis=0)])
     return args, [v]
@@ -679,12 +832,20 @@ def _w_loop_feedback():
     """Second carried value returns the first one's *argument*: after two iterations it holds a
     doubled tensor although its declared type is the initial one."""
     import spox.opset.ai.onnx.v17 as op
-    from spox._graph import arguments_dict
-
-    args = arguments_dict(x=L.ty_from_json({"e": "f32", "s": [2]}))
+    args = make_args(dict(x=L.ty_from_json({"e": "f32", "s": [2]})))
     v, w = op.loop(op.const(np.array(2, dtype=np.int64)), v_initial=[args["x"], args["x"]],
                    body=lambda i, c, a, b: [c, op.concat([a, a], axis=0), a])
     return args, [v, w]
+
+
+def _w_loop_refined_dim():
+    """The body's result refines the argument's declared type (f32[N] -> f32[3] by broadcasting): with
+    zero iterations the initial value, of any size N, comes out."""
+    import spox.opset.ai.onnx.v17 as op
+    args = make_args(dict(x=L.ty_from_json({"e": "f32", "s": ["N"]}), m=L.ty_from_json({"e": "i64", "s": []})))
+    ones = op.const(np.ones((3,), dtype=np.float32))
+    (v,) = op.loop(args["m"], v_initial=[args["x"]], body=lambda i, c, w: [c, op.add(w, ones)])
+    return args, [v]
 
 
 WITNESSES = {
@@ -693,6 +854,7 @@ WITNESSES = {
     "normalizer_float64": _w_normalizer,
     "loop_zero_iterations": _w_loop_m0,
     "loop_feedback": _w_loop_feedback,
+    "loop_refined_dim": _w_loop_refined_dim,
 }
 
 
@@ -700,7 +862,12 @@ def run_witness(case: dict) -> dict:
     with warnings.catch_warnings():
         warnings.simplefilter("ignore")
         args, outs = WITNESSES[case["name"]]()
-    return observe(args, outs, random.Random(0), [0, 1, 2, 5], 4)
+    def fix_feed(feed):
+        if "m" in feed:  # trip count input of a witness: zero iterations
+            feed["m"] = np.array(0, dtype=np.int64)
+        return feed
+
+    return observe(args, outs, random.Random(0), [0, 1, 2, 5], 4, fix_feed=fix_feed)
 
 
 def replay_known(ck) -> list:
